@@ -347,9 +347,9 @@ def _nt(case):
 
 
 SUBS = [
-    Sub("align", sub_align, st_case(1, 24), 1600, 120000, nontrivial=_nt, shards_quick=8),
+    Sub("align", sub_align, st_case(1, 24), 4000, 120000, nontrivial=_nt, shards_quick=8),
     Sub("align_large", sub_align, st_case(25, 60), 200, 20000, nontrivial=_nt, shards_quick=2),
-    Sub("equivariance", sub_equivariance, st_eqcase, 600, 40000, nontrivial=_nt),
+    Sub("equivariance", sub_equivariance, st_eqcase, 1500, 40000, nontrivial=_nt),
     Sub("shapes", sub_shapes, st_case(2, 10, ["generic"]), 100, 2000),
     Sub("bulk", sub_bulk, st_bulk, 24, 600, nontrivial=_nt, shards_quick=4),
 ]
